@@ -27,16 +27,86 @@ mod verif_c17_util {
 """
 
 
+ARGS = "src/benchmark/args.rs"
+
+KANI_ARGS_REAL = r"""
+#[cfg(kani)]
+#[allow(static_mut_refs)]
+mod verif_c17_args {
+    use super::*;
+    use crate::{benchmark::{BenchContext, BenchOptions}, config::Action, divan::SharedContext, time::Timer, util::thread::ThreadPool};
+    use std::num::NonZeroUsize;
+
+    fn zeroed_random_state() -> std::hash::RandomState { unsafe { std::mem::zeroed() } }
+    // the process-wide argument list of one benchmark function, as the macro declares it
+    static REAL: BenchArgs = BenchArgs::new();
+    // labels that are prefixes of one buffer (same start address, different lengths)
+    static BUF: [u8; 8] = *b"aaaaaaaa";
+    static mut MADE: u32 = 0;
+    static mut SEEN: [usize; 4] = [0; 4];
+    static mut WHO: [u8; 4] = [0; 4];
+    static mut NSEEN: usize = 0;
+    fn s(n: usize) -> &'static str { unsafe { std::str::from_utf8_unchecked(&BUF[..n]) } }
+    fn make() -> [&'static str; 3] { unsafe { MADE += 1; } [s(2), s(4), s(8)] }
+    fn note(who: u8, v: usize) { unsafe { if NSEEN < 4 { SEEN[NSEEN] = v; WHO[NSEEN] = who; } NSEEN += 1; } }
+    // two instantiations of the same benchmark function (as for two generic types) share REAL
+    fn runner_a() -> BenchArgsRunner { REAL.runner(make, |a| a.to_string(), |_b: Bencher, a: &&'static str| note(1, a.len())) }
+    fn runner_b() -> BenchArgsRunner { REAL.runner(make, |a| a.to_string(), |_b: Bencher, a: &&'static str| note(2, a.len())) }
+
+    /// The real BenchArgs::runner + args::bench: the list is built once and shared, names[i] is the
+    /// label of argument i, and each instantiation's runner calls ITS OWN function with the argument
+    /// at the index asked for.
+    #[kani::proof]
+    #[kani::unwind(5)]
+    #[kani::stub(std::hash::RandomState::new, zeroed_random_state)]
+    fn real_runner_list_once_function_per_instantiation() {
+        let ra = runner_a();
+        let rb = runner_b();
+        assert!(unsafe { MADE } == 1, "[C17] the argument list is evaluated once per process");
+        let names = ra.arg_names();
+        assert!(names.len() == 3 && rb.arg_names().as_ptr() == names.as_ptr() && rb.arg_names().len() == 3, "[C17] all instantiations share one argument list");
+        assert!(names[0].len() == 2 && names[1].len() == 4 && names[2].len() == 8, "[C17] label i is the rendering of argument i");
+        let i: usize = kani::any(); kani::assume(i < 3);
+        let want = [2usize, 4, 8][i];
+        let sh = SharedContext { action: Action::Test, timer: Timer::Os, thread_pool: ThreadPool::new() };
+        let o = BenchOptions::default();
+        let mut cx = BenchContext::new(&sh, &o, NonZeroUsize::MIN);
+        ra.bench(Bencher::new(&mut cx), i);
+        rb.bench(Bencher::new(&mut cx), i);
+        let (n, seen, who) = unsafe { (NSEEN, SEEN, WHO) };
+        assert!(n == 2, "[C17] one call per dispatch");
+        assert!(seen[0] == want && seen[1] == want, "[C17] a label is measured with the argument it names");
+        assert!(who[0] == 1 && who[1] == 2, "[C17] each instantiation runs its own function");
+        kani::cover!(i == 2);
+    }
+}
+"""
+
+ZST_ARTEFACT = (r"memset destination region writeable @ std::ptr::write_bytes::<",
+                "Kani models mem::zeroed::<B>() of the zero-sized benchmark closure as a memset on a zero-sized object and flags the destination; no byte is written")
+
+
+def _real():
+    h = KaniHarness("verif_c17_args::real_runner_list_once_function_per_instantiation", "bounded",
+                    bound="one argument list of three &str labels aliasing one buffer, two instantiations, every index",
+                    covers="BenchArgs::runner (OnceLock initialisation, names reuse, TypeId) + args::bench (typed_args, zero-sized closure) + BenchArgsRunner::{bench, arg_names}")
+    h.ignore = [ZST_ARTEFACT]
+    return h
+
+
 def build(S: Sources) -> Unit:
     S(UTIL)
     return Unit(
         property_id="C17",
         verus=[],
-        kani=[KaniSpec(injections={UTIL: KANI_UTIL}, harnesses=[KaniHarness("verif_c17_util::slice_ptr_index_roundtrip", "complete", covers="util::slice_ptr_index")]),
+        kani=[KaniSpec(injections={UTIL: KANI_UTIL, ARGS: KANI_ARGS_REAL},
+                       harnesses=[KaniHarness("verif_c17_util::slice_ptr_index_roundtrip", "complete", covers="util::slice_ptr_index"),
+                                  _real()],
+                       stubs_note=["std::hash::RandomState::new -> zero keys (thread pool construction for the BenchContext handed to Bencher::new)"]),
               E.entry_kani("C17", only={"arg_label_to_value"})],
         undecided_clauses=[
-            "BenchArgs::runner: building the argument and names slices in parallel (OnceLock, Box::leak, TypeId casts, string reuse) and evaluating the list once per process",
-            "args::bench conjuring the zero-sized benchmark closure with mem::zeroed() and the macro-generated closure itself; types x consts instantiations sharing one argument list",
+            "BenchArgs::runner for argument types other than &str (the ToString / Debug rendering path through arg_to_string, String / Box<str> / Cow<str> reuse, slices and ranges as iterators)",
+            "the macro-generated closure itself (proc macro); consts and types named by a label (generic entries)",
             "more than three arguments; the display / list / filter side of a label (C13, C14, C16)",
         ],
     )
